@@ -72,8 +72,12 @@ class Guarded(Exception):
 
 def guard(where: str, fn, *a, **kw):
     """Call code under test; convert its exceptions into Guarded (a property failure, not a harness error)."""
+    from .values import OutOfDomain
+
     try:
         return fn(*a, **kw)
+    except OutOfDomain:
+        raise
     except Exception as e:  # noqa: BLE001 - anything the library raises (RecursionError too) is data for the oracle
         raise Guarded(where, e) from None
 
@@ -92,6 +96,16 @@ def collecting(fn):
 
     wrapper.__name__ = getattr(fn, "__name__", "clauses")
     return wrapper
+
+
+def evaluate(t: "Target", case) -> "Eval":
+    """t.evaluate(case); a case the harness itself declares outside the property's domain is a counted discard."""
+    from .values import OutOfDomain
+
+    try:
+        return t.evaluate(case)
+    except OutOfDomain as e:
+        return Eval(discard=str(e))
 
 
 def exc_sig(e: BaseException) -> str:
@@ -264,7 +278,7 @@ def run_target(ctx: Ctx, t: Target):
                 complete = False
                 ctx.col.budget_hit.append(t.name)
                 break
-            ctx.col.add(t.name, case, t.evaluate(case))
+            ctx.col.add(t.name, case, evaluate(t, case))
         ctx.col.exhaustive[t.name] = bool(t.exhaustive and complete)
         return
     if n <= 0:
@@ -280,7 +294,7 @@ def run_target(ctx: Ctx, t: Target):
     def survey(case):
         if time.time() - t0 > tlimit:
             raise _Stop()
-        ctx.col.add(t.name, case, t.evaluate(case))
+        ctx.col.add(t.name, case, evaluate(t, case))
 
     try:
         survey()
@@ -302,7 +316,7 @@ def pin(ctx: Ctx, t: Target, sig: str, first_case) -> Any:
         calls[0] += 1
         if calls[0] > t.pin_budget:
             return False
-        ev = t.evaluate(case)
+        ev = evaluate(t, case)
         hit = any(f.sig == sig for f in ev.failures)
         if hit:
             best[0] = case
@@ -365,7 +379,7 @@ def run_check(pid: str, tier: str, seed: int, nshards: Optional[int] = None) -> 
             if t is None:
                 continue
             n_regress += 1
-            ev = t.evaluate(decanon(rec["case"]))
+            ev = evaluate(t, decanon(rec["case"]))
             ctx.col.add("regress:" + t.name, decanon(rec["case"]), ev)
             for f in ev.failures:
                 if not known.match(pid, f.sig):
@@ -486,7 +500,7 @@ def run_replay(pid: str, path: str) -> int:
     tmap = {t.name: t for t in mod.targets(ctx)}
     rec = json.load(open(path))
     t = tmap[rec["target"]]
-    ev = t.evaluate(decanon(rec["case"]))
+    ev = evaluate(t, decanon(rec["case"]))
     known = Known()
     bad = [f for f in ev.failures if not known.match(pid, f.sig)]
     for f in ev.failures:
